@@ -175,11 +175,20 @@ def gen_calc(rng, V, tbl="public", which=None, pool=None):
         ev = ["calc", tbl, which, V.formula(rng, pool=pool), rng.choice([1.0, 2.5, 7.9]),
               rng.choice([0.5, 1.798, 4.75, 6.0])]
         opts = {k: True for k in ("energy", "natural", "vector", "str") if rng.random() < 0.2}
+        if rng.random() < 0.05:
+            # a call that fails part-way (no density / a zero wavelength): whatever it loaded on
+            # the way must be complete, and the next good call must not notice
+            if rng.random() < 0.6:
+                ev[4] = None
+            else:
+                ev[5] = 0.0
         return ev + ([opts] if opts else [])
     if which == "xsld":
         ev = ["calc", tbl, which, V.formula(rng, xray_ok=True, pool=pool), rng.choice([1.0, 5.24]),
               rng.choice([8.04, 17.44, 1.0])]
         opts = {k: True for k in ("wavelength", "natural", "str") if rng.random() < 0.2}
+        if rng.random() < 0.05:
+            ev[4] = None
         return ev + ([opts] if opts else [])
     if which == "volume":
         ev = ["calc", tbl, which, V.formula(rng)]
